@@ -30,11 +30,6 @@ theorem allSome_none_of_mem {α} (l : List (Option α)) (h : none ∈ l) : allSo
 
 /-! ### labels -/
 
-def lblF (x : Xml) : Option (String × String) :=
-  match x with
-  | .elem t la lk => if t = "label" then some ((la.lookup "kind").getD "", contentOf lk) else none
-  | .text _ => none
-
 theorem filterMap_wOptLabel (kind : String) (t : Option LTxt) :
     (wOptLabel kind t).filterMap lblF = optLabel kind t := by
   cases t with
@@ -113,5 +108,151 @@ theorem gLoc_wLoc (nl : WLoc × Nat) (h : (nl.1.urgent && nl.1.committed) = fals
     rcases htag with rfl | rfl <;> simp [hasChild]
   simp only [gLoc, glocOf, hinv, hrate, hflag "urgent" (Or.inl rfl), hflag "committed" (Or.inr rfl)]
   cases u <;> cases c <;> simp_all [wLocAttrs, wLocKids, childText, List.findSome?, contentOf, txtStr, hasChild, flagOf, List.lookup]
+
+/-! ### one edge -/
+
+structure EdgeOk (e : WEdge) : Prop where
+  prob : nontrivial e.prob = none
+  sel : e.select = [] ∨ ∃ s, e.select = [s] ∧ s.named = true
+  ctrl : e.ctrl = true
+  ends : ∃ s d, e.src = .loc s ∧ e.dst = .loc d
+
+theorem edgeOk_of (e : WEdge) (h : edgeShapes e = []) : EdgeOk e := by
+  simp only [edgeShapes, List.append_eq_nil_iff] at h
+  obtain ⟨⟨⟨⟨h1, h2⟩, h3⟩, h4⟩, h5⟩ := h
+  refine ⟨?_, ?_, ?_, ?_⟩
+  · cases hp : nontrivial e.prob with
+    | none => rfl
+    | some s => simp [hp] at h1
+  · cases hs : e.select with
+    | nil => exact Or.inl rfl
+    | cons s r =>
+      right
+      cases r with
+      | nil =>
+        refine ⟨s, rfl, ?_⟩
+        cases hn : s.named with
+        | true => rfl
+        | false => simp [hs, hn, selShapes] at h3
+      | cons s2 r2 => simp [hs] at h2
+  · cases hc : e.ctrl with
+    | true => rfl
+    | false => simp [hc] at h4
+  · cases hs : e.src with
+    | loc s =>
+      cases hd : e.dst with
+      | loc d => exact ⟨s, d, rfl, rfl⟩
+      | bp _ => simp [hs, hd] at h5
+    | bp _ => simp [hs] at h5
+
+def wEdge' (e : WEdge) : Xml :=
+  match e.src, e.dst with
+  | .loc s, .loc d => .elem "transition" [] (wEdgeKids e s d)
+  | _, _ => .elem "transition" [] []
+
+theorem wEdge_ok (e : WEdge) (h : EdgeOk e) : wEdge e = some (wEdge' e) := by
+  obtain ⟨s, d, hs, hd⟩ := h.ends
+  simp [wEdge, wEdge', hs, hd]
+
+theorem filterMap_lblF_append (a b : List Xml) : (a ++ b).filterMap lblF = a.filterMap lblF ++ b.filterMap lblF :=
+  List.filterMap_append
+
+theorem gEdge_wEdge (e : WEdge) (h : EdgeOk e) :
+    ∃ k, wEdge' e = Xml.elem "transition" [] k ∧ gEdge [] k = gedgeOf e := by
+  obtain ⟨s, d, hs, hd⟩ := h.ends
+  refine ⟨wEdgeKids e s d, by simp [wEdge', hs, hd], ?_⟩
+  have hlab : (wEdgeLabels e).filterMap lblF =
+      (if e.select.isEmpty then [] else [("select", selectsText e.select)]) ++ optLabel "guard" e.guard ++
+        optLabel "synchronisation" e.sync ++ optLabel "assignment" e.assign ++ optLabel "probability" e.prob := by
+    have hp : optLabel "probability" e.prob = [] := by simp [optLabel, h.prob]
+    simp only [wEdgeLabels, filterMap_lblF_append, filterMap_wOptLabel, hp, List.append_nil]
+    rcases h.sel with hsel | ⟨x, hsel, hnamed⟩
+    · simp [hsel]
+    · simp [hsel, hnamed, lblF, contentOf, txtStr, List.lookup, selectsText]
+  simp only [gEdge, gedgeOf, hs, hd, endId, h.ctrl, List.lookup]
+  have hfm : (wEdgeKids e s d).filterMap lblF = (wEdgeLabels e).filterMap lblF := by
+    simp [wEdgeKids, lblF, List.filterMap_cons]
+  rw [hfm, hlab]
+  simp [wEdgeKids, refOf, List.findSome?, List.lookup]
+
+/-! ### one template -/
+
+structure TemplOk (t : WTempl) : Prop where
+  init : ∃ i, t.init = some i
+  edges : ∀ e ∈ t.edges, EdgeOk e
+  locs : ∀ l ∈ t.locs, (l.urgent && l.committed) = false
+
+theorem templOk_of (t : WTempl) (h : templShapes t = []) : TemplOk t := by
+  simp only [templShapes, List.append_eq_nil_iff, List.flatMap_eq_nil_iff] at h
+  obtain ⟨⟨h1, h2⟩, h3⟩ := h
+  refine ⟨?_, fun e he => edgeOk_of e (h1 e he), ?_⟩
+  · cases hi : t.init with
+    | some i => exact ⟨i, rfl⟩
+    | none => simp [hi] at h3
+  · intro l hl
+    cases hb : (l.urgent && l.committed) with
+    | false => rfl
+    | true =>
+      have : t.locs.any (fun l => l.urgent && l.committed) = true := List.any_eq_true.mpr ⟨l, hl, hb⟩
+      simp [this] at h2
+
+def wTempl' (t : WTempl) : Xml :=
+  .elem "template" []
+    ([Xml.elem "name" [] [.text (.str t.name)], Xml.elem "parameter" [] [], Xml.elem "declaration" [] []] ++
+     (t.locs.zipIdx.map (fun nl => Xml.elem "location" (wLocAttrs nl) (wLocKids nl)) ++
+      ([Xml.elem "init" [("ref", idOf (t.init.getD 0))] []] ++ t.edges.map wEdge')))
+
+theorem wTempl_ok (t : WTempl) (h : TemplOk t) : wTempl t = some (wTempl' t) := by
+  obtain ⟨i, hi⟩ := h.init
+  have := allSome_map_some wEdge wEdge' t.edges (fun e he => wEdge_ok e (h.edges e he))
+  simp [wTempl, wTempl', hi, this]
+
+theorem filterMap_none {α β} (f : α → Option β) (l : List α) (h : ∀ x ∈ l, f x = none) : l.filterMap f = [] := by
+  induction l with
+  | nil => rfl
+  | cons x r ih => simp [List.filterMap_cons, h x (by simp), ih (fun y hy => h y (by simp [hy]))]
+
+theorem filterMap_map_some {α β γ} (f : β → Option γ) (g : α → β) (k : α → γ) (l : List α) (h : ∀ x ∈ l, f (g x) = some (k x)) :
+    (l.map g).filterMap f = l.map k := by
+  induction l with
+  | nil => rfl
+  | cons x r ih => simp [List.filterMap_cons, h x (by simp), ih (fun y hy => h y (by simp [hy]))]
+
+theorem gTempl_wTempl (t : WTempl) (h : TemplOk t) :
+    ∃ k, wTempl' t = Xml.elem "template" [] k ∧ gTempl k = gtemplOf t := by
+  obtain ⟨i, hi⟩ := h.init
+  refine ⟨_, rfl, ?_⟩
+  have hwe : ∀ e : WEdge, ∃ k, wEdge' e = Xml.elem "transition" [] k := by
+    intro e; unfold wEdge'; split <;> exact ⟨_, rfl⟩
+  -- locations
+  have hlocs : (t.locs.zipIdx.map (fun nl => Xml.elem "location" (wLocAttrs nl) (wLocKids nl))).filterMap locF
+      = t.locs.zipIdx.map glocOf := by
+    apply filterMap_map_some
+    intro nl hnl
+    simp only [locF, ↓reduceIte]
+    rw [gLoc_wLoc nl (h.locs nl.1 (List.fst_mem_of_mem_zipIdx hnl))]
+  have hlocsE : (t.edges.map wEdge').filterMap locF = [] := by
+    apply filterMap_none; intro x hx
+    obtain ⟨e, _, rfl⟩ := List.mem_map.mp hx
+    obtain ⟨k, hk⟩ := hwe e; simp [hk, locF]
+  -- init
+  have hinitL : (t.locs.zipIdx.map (fun nl => Xml.elem "location" (wLocAttrs nl) (wLocKids nl))).filterMap initF = [] := by
+    apply filterMap_none; intro x hx
+    obtain ⟨nl, _, rfl⟩ := List.mem_map.mp hx; simp [initF]
+  have hinitE : (t.edges.map wEdge').filterMap initF = [] := by
+    apply filterMap_none; intro x hx
+    obtain ⟨e, _, rfl⟩ := List.mem_map.mp hx
+    obtain ⟨k, hk⟩ := hwe e; simp [hk, initF]
+  -- edges
+  have hedgesL : (t.locs.zipIdx.map (fun nl => Xml.elem "location" (wLocAttrs nl) (wLocKids nl))).filterMap edgeF = [] := by
+    apply filterMap_none; intro x hx
+    obtain ⟨nl, _, rfl⟩ := List.mem_map.mp hx; simp [edgeF]
+  have hedges : (t.edges.map wEdge').filterMap edgeF = t.edges.map gedgeOf := by
+    apply filterMap_map_some
+    intro e he
+    obtain ⟨k, hk, hg⟩ := gEdge_wEdge e (h.edges e he)
+    simp [hk, edgeF, hg]
+  simp only [gTempl, gtemplOf, List.filterMap_append, hlocs, hlocsE, hinitL, hinitE, hedgesL, hedges, hi, Option.getD_some]
+  simp [locF, initF, edgeF, childText, List.findSome?, contentOf, txtStr, List.filterMap_cons, List.lookup]
 
 end UtapModel.AM
